@@ -245,9 +245,100 @@ fn lag_live(rng: &mut Rng, i: u64) -> String {
     format!("c09 {} {} {} {}", bg as u8, parts.join("|"), sub, sched.join(","))
 }
 
+/// history -> live -> lag -> history re-read -> live (-> second lag): the history read delivers some events, the
+/// subscription goes live and at least three events arrive through the broadcast (delivered and acknowledged, on
+/// every key of the subscription), then it is held behind a closed window (it has received one more record) while
+/// more events than the channel holds are appended, confirmed and broadcast at once, so the events it still needs
+/// are dropped and the re-read has to start from the positions recorded DURING LIVE delivery; then live again.
+/// mode 1: a second lag behind a closed window after the re-read went live again;
+/// mode 2: the second lag hits while the re-read itself is held at its history pause point.
+/// kind: 0 one partition, 1 one stream, 2 all partitions, 3 several partitions, 4 several streams
+fn hist_live_lag(rng: &mut Rng, kind: u64, mode: u64, win: u64) -> String {
+    let t = rng.below(NP);
+    let o = (t + 1 + rng.below(NP - 1)) % NP;
+    let multi_part = kind == 2 || kind == 3;
+    let two_streams = kind == 4;
+    let (s0, s1) = (t * 4, t * 4 + 1);
+    // one event per write on the first stream (and the second one alternately for the two-stream kind)
+    let pre = rng.range(4, 9);
+    let mut parts: Vec<String> = (0..NP).map(|_| "-".to_string()).collect();
+    parts[t as usize] = if two_streams { format!("1:01*{pre}") } else { format!("1:0*{pre}") };
+    if multi_part { parts[o as usize] = format!("1:0*{}", rng.range(2, 4)); }
+    let start = rng.below(pre - 1);
+    let sub = match kind {
+        0 => format!("part/{t}/{start}/w{win}"),
+        1 => format!("stream/{s0}/{start}/w{win}"),
+        2 => if rng.chance(1, 2) { format!("all/M{t}={start};f=0/w{win}") } else { format!("all/A{}/w{win}", start.min(1)) },
+        3 => format!("parts/{t}.{o}/M{t}={start};f=0/w{win}"),
+        _ => if rng.chance(1, 2) { format!("streams/{s0}.{s1}/M{s0}={start};{s1}={}/w{win}", rng.below(pre - 1)) } else { format!("streams/{s0}.{s1}/A{}/w{win}", start.min(2)) },
+    };
+    // 16 events per transaction: fewer appends / ConfirmTransaction round trips for the same flood
+    let bulk = if two_streams { "0101010101010101" } else { "0000000000000000" };
+    let mut sched: Vec<String> = Vec::new();
+    let bg = rng.chance(1, 3);
+    if bg { sched.push(format!("x{t}:0")); }
+    sched.push("S".into());
+    sched.push("F".into()); // the history read runs to its end, everything acknowledged: live
+    let mut flip = 0u64;
+    let mut one = |flip: &mut u64| -> String { *flip += 1; if two_streams && *flip % 2 == 0 { "1".into() } else { "0".into() } };
+    // live deliveries, acknowledged one by one, on every key
+    let live = |rng: &mut Rng, sched: &mut Vec<String>, flip: &mut u64, one: &mut dyn FnMut(&mut u64) -> String, n: u64| {
+        for _ in 0..n {
+            let st = one(flip);
+            sched.push(format!("x{t}:{st}")); sched.push("K".into());
+            if multi_part && rng.chance(2, 3) { sched.push(format!("x{o}:0")); sched.push("K".into()); }
+        }
+    };
+    let n_live = rng.range(3, 5);
+    live(rng, &mut sched, &mut flip, &mut one, n_live);
+    if multi_part { sched.push(format!("x{o}:0")); sched.push("K".into()); }
+    // `win` more records go out unacknowledged, one more is received and waits: closed window
+    let block = |sched: &mut Vec<String>, flip: &mut u64, one: &mut dyn FnMut(&mut u64) -> String| {
+        for _ in 0..win + 1 { let st = one(flip); sched.push(format!("x{t}:{st}")); }
+        if multi_part { sched.push(format!("x{o}:0*2")); } // these wait in the channel and are dropped with the rest
+    };
+    let flood = |rng: &mut Rng, sched: &mut Vec<String>| {
+        let k = rng.range(66, 70);
+        sched.push(format!("a{t}:{bulk}*{k}"));
+        sched.push(format!("c{t}*{k}"));
+        sched.push(format!("x{t}:0"));
+    };
+    block(&mut sched, &mut flip, &mut one);
+    flood(rng, &mut sched);
+    let mode = if mode == 2 && two_streams { 1 } else { mode }; // no writes inside the lazily iterated several-streams history
+    if mode == 2 {
+        // the acknowledgement lets the waiting record out, the receive reports Lagged, the re-read fetches its
+        // first batch and stops at the pause point; the second flood arrives there
+        sched.push("K".into());
+        flood(rng, &mut sched);
+        sched.push("F".into());
+    } else {
+        sched.push("F".into());
+    }
+    live(rng, &mut sched, &mut flip, &mut one, 2);
+    if mode == 1 {
+        block(&mut sched, &mut flip, &mut one);
+        flood(rng, &mut sched);
+        sched.push("F".into());
+        live(rng, &mut sched, &mut flip, &mut one, 2);
+    }
+    sched.push("F".into());
+    format!("c09 {} {} {} {}", bg as u8, parts.join("|"), sub, sched.join(","))
+}
+
 pub fn generate(rng: &mut Rng, thorough: bool) -> Vec<String> {
-    let (ns, nb, nl, nll) = if thorough { (2400, 500, 30, 10) } else { (300, 60, 5, 3) };
+    let (ns, nb, nl, nll) = if thorough { (2400, 500, 30, 10) } else { (300, 60, 5, 2) };
     let mut v = Vec::new();
+    // history -> live -> lag -> re-read -> live: every matcher kind, single lag and double lag
+    let r = rng.below(2);
+    for kind in 0..5u64 {
+        if thorough {
+            for &w in &[2u64, 10] { for mode in 0..3u64 { v.push(hist_live_lag(rng, kind, mode, w)); } }
+        } else {
+            v.push(hist_live_lag(rng, kind, 0, if (kind + r) % 2 == 0 { 2 } else { 10 }));
+            v.push(hist_live_lag(rng, kind, 1 + (kind + r) % 2, if (kind + r) % 2 == 0 { 10 } else { 2 }));
+        }
+    }
     // the long scenarios first: the child processes take the lines round-robin
     // the single-stream and single-partition kinds every time, the other kinds in turn
     let off = rng.below(3);
